@@ -36,7 +36,14 @@ Inductive prod :=
   | PNil                      (* the literal nil, or an unassigned variable: always nil-able *)
   | PNever                    (* an allocation, or a value that passed a nil check *)
   | PSite (s : asite)         (* a parameter, a call result or a package-level variable: nil-able iff the site is *)
-  | PStale.                   (* marker: a package-level variable tracked across a call that may have re-assigned it *)
+  | PStale                    (* marker: a package-level variable tracked across a call that may have re-assigned it;
+                                 also an error value, which the fragment only tests and hands on *)
+  (* the (value, error) convention: result 0 of call cs of an error-returning f whose error is held by xe and has
+     not been checked yet -- used unchecked it counts as nil ("lacking guarding"); the same after err == nil was
+     established; the same once its error variable was overwritten (it can never be checked any more) *)
+  | PGuard (f : fname) (cs : nat) (xe : var)
+  | PChecked (f : fname) (cs : nat)
+  | PUng (f : fname) (cs : nat).
 
 Definition asite_eqb (s t : asite) : bool :=
   match s, t with
@@ -54,11 +61,19 @@ Definition prod_eqb (p q : prod) : bool :=
   | PNil, PNil | PNever, PNever => true
   | PSite s, PSite t => asite_eqb s t
   | PStale, PStale => true
+  | PGuard f c x, PGuard g d y => Nat.eqb f g && Nat.eqb c d && var_eqb x y
+  | PChecked f c, PChecked g d => Nat.eqb f g && Nat.eqb c d
+  | PUng f c, PUng g d => Nat.eqb f g && Nat.eqb c d
   | _, _ => false
   end.
 
 Definition kind_of (p : prod) : kind :=
-  match p with PNil => KAlways | PNever | PStale => KNever | PSite s => KCond (enc s) end.
+  match p with
+  | PNil | PGuard _ _ _ | PUng _ _ => KAlways
+  | PNever | PStale => KNever
+  | PSite s => KCond (enc s)
+  | PChecked f _ => KCond (enc (SResult f))
+  end.
 
 (* a use of a value is covered by the soundness argument unless it may be such a stale package-level value *)
 Definition use_ok (ps : list prod) : bool := negb (existsb (prod_eqb PStale) ps).
@@ -83,8 +98,27 @@ Fixpoint aget (e : env) (x : var) : aset :=
   match e with [] => dflt x | (y, a) :: e' => if var_eqb y x then a else aget e' x end.
 Definition aput (e : env) (x : var) (a : aset) : env := (x, a) :: e.
 
+(* guards: establishing err == nil, overwriting err *)
+Definition env_map (fn : prod -> prod) (e : env) : env := map (fun ya => (fst ya, map fn (snd ya))) e.
+Definition check_guard (xe : var) (p : prod) : prod :=
+  match p with PGuard f cs y => if var_eqb y xe then PChecked f cs else p | _ => p end.
+Definition kill_guard (xe : var) (p : prod) : prod :=
+  match p with PGuard f cs y => if var_eqb y xe then PUng f cs else p | _ => p end.
+(* assignment to x: results whose error x held can no longer be checked *)
+Definition aputk (e : env) (x : var) (a : aset) : env := aput (env_map (kill_guard x) e) x a.
+(* triggers are merged per (producer site, consumer): a use reached by a checked and by an unchecked result of the
+   same function counts as unchecked -- the checked forms are dropped when a use is turned into triggers *)
+Definition norm (ps : aset) : aset :=
+  filter (fun p => match p with
+                   | PChecked f cs => negb (existsb (fun q => match q with PGuard g _ _ | PUng g _ => Nat.eqb f g | _ => false end) ps)
+                   | _ => true
+                   end) ps.
+
 Definition prods_of_atom (e : env) (a : atom_e) : aset :=
   match a with ANil => [PNil] | ANew => [PNever] | AVar x => aget e x end.
+(* the producers of a use *)
+Definition uprods (e : env) (a : atom_e) : aset := norm (prods_of_atom e a).
+Definition never_nil (ps : aset) : bool := forallb (fun p => match kind_of p with KNever => true | _ => false end) ps.
 
 Definition keys (e : env) : list var := map fst e.
 Definition subset_b (a b : aset) : bool := forallb (fun p => existsb (prod_eqb p) b) a.
@@ -111,8 +145,8 @@ Definition join_opt (o1 o2 : option env) : option env :=
 Fixpoint acond (c : cond) (e : env) : env * env * list strig * bool :=
   match c with
   | COpaque => (e, e, [], true)
-  | CNonNil x => (aput e x [PNever], e, [], true)
-  | CDeref d x => (e, e, map (fun p => mk_trigger d p CAlways) (aget e x), use_ok (aget e x))
+  | CNonNil x => (aput e x [PNever], env_map (check_guard x) e, [], true)
+  | CDeref d x => (e, e, map (fun p => mk_trigger d p CAlways) (norm (aget e x)), use_ok (aget e x))
   | CNot c1 => let '(et, ef, tr, b) := acond c1 e in (ef, et, tr, b)
   | CAnd c1 c2 =>
       let '(et1, ef1, tr1, b1) := acond c1 e in
@@ -136,7 +170,7 @@ Definition store_triggers (x : var) (a : aset) : list strig :=
 Fixpoint arg_triggers (e : env) (sf : nat -> asite) (i : nat) (args : list atom_e) : list strig :=
   match args with
   | [] => []
-  | a :: args' => map (fun p => mk_trigger 0 p (CSite (sf i))) (prods_of_atom e a) ++ arg_triggers e sf (S i) args'
+  | a :: args' => map (fun p => mk_trigger 0 p (CSite (sf i))) (uprods e a) ++ arg_triggers e sf (S i) args'
   end.
 
 (* at a call, a package-level variable that is no longer (also) described by its site becomes stale *)
@@ -158,7 +192,8 @@ Definition call_result_site (ctr : fname -> bool) (sp : fname -> bool) (g : fnam
 
 Record ares := { a_env : option env;      (* None: control never falls through *)
                  a_trig : list strig;
-                 a_gsafe : bool }.         (* no stale package-level value is used *)
+                 a_gsafe : bool;           (* no stale package-level value is used *)
+                 a_rsafe : bool }.         (* every return statement returns a value that is never nil *)
 
 Section Analyze.
   Variable ng : nat.             (* number of package-level variables *)
@@ -183,7 +218,7 @@ Section Analyze.
 
   Fixpoint analyze (fuel : nat) (st : stmt) (e : env) : option ares :=
     match st with
-    | SSkip => Some {| a_env := Some e; a_trig := []; a_gsafe := true |}
+    | SSkip => Some {| a_env := Some e; a_trig := []; a_gsafe := true; a_rsafe := true |}
     | SSeq s1 s2 =>
         match analyze fuel s1 e with
         | None => None
@@ -193,27 +228,27 @@ Section Analyze.
             | Some e1 =>
                 match analyze fuel s2 e1 with
                 | None => None
-                | Some r2 => Some {| a_env := a_env r2; a_trig := a_trig r1 ++ a_trig r2; a_gsafe := a_gsafe r1 && a_gsafe r2 |}
+                | Some r2 => Some {| a_env := a_env r2; a_trig := a_trig r1 ++ a_trig r2; a_gsafe := a_gsafe r1 && a_gsafe r2; a_rsafe := a_rsafe r1 && a_rsafe r2 |}
                 end
             end
         end
     | SAssign x a =>
         let ps := prods_of_atom e a in
-        Some {| a_env := Some (aput e x ps); a_trig := store_triggers x ps; a_gsafe := use_ok ps || negb (is_glob x) |}
+        Some {| a_env := Some (aputk e x ps); a_trig := store_triggers x (norm ps); a_gsafe := use_ok ps || negb (is_glob x); a_rsafe := true |}
     | SCall cs x g args =>
         let res := [PSite (call_result_site ctr sp g cs args)] in
         let e' := mark_stale ng e in
-        Some {| a_env := Some (match x with Some y => aput e' y res | None => e' end);
+        Some {| a_env := Some (match x with Some y => aputk e' y res | None => e' end);
                 a_trig := arg_triggers e (call_param_site ctr g cs) 0 args ++
                           match x with Some y => store_triggers y res | None => [] end;
-                a_gsafe := forallb (fun a => use_ok (prods_of_atom e a)) args |}
-    | SDeref d x => Some {| a_env := Some e; a_trig := map (fun p => mk_trigger d p CAlways) (aget e x); a_gsafe := use_ok (aget e x) |}
+                a_gsafe := forallb (fun a => use_ok (prods_of_atom e a)) args; a_rsafe := true |}
+    | SDeref d x => Some {| a_env := Some e; a_trig := map (fun p => mk_trigger d p CAlways) (norm (aget e x)); a_gsafe := use_ok (aget e x); a_rsafe := true |}
     | SIf c s1 s2 =>
         let '(et, ef, trc, bc) := acond c e in
         match analyze fuel s1 et, analyze fuel s2 ef with
         | Some r1, Some r2 =>
             Some {| a_env := join_opt (a_env r1) (a_env r2); a_trig := trc ++ a_trig r1 ++ a_trig r2;
-                    a_gsafe := bc && a_gsafe r1 && a_gsafe r2 |}
+                    a_gsafe := bc && a_gsafe r1 && a_gsafe r2; a_rsafe := a_rsafe r1 && a_rsafe r2 |}
         | _, _ => None
         end
     | SWhile c body =>
@@ -221,23 +256,42 @@ Section Analyze.
         | None => None
         | Some (einv, r) =>
             let '(_, ef, trc, bc) := acond c einv in
-            Some {| a_env := Some ef; a_trig := trc ++ a_trig r; a_gsafe := bc && a_gsafe r |}
+            Some {| a_env := Some ef; a_trig := trc ++ a_trig r; a_gsafe := bc && a_gsafe r; a_rsafe := a_rsafe r |}
         end
     | SReturn a =>
         Some {| a_env := None;
-                a_trig := map (fun p => mk_trigger 0 p (CSite (SResult f))) (prods_of_atom e a);
-                a_gsafe := use_ok (prods_of_atom e a) |}
-    | SConv x _ _ => Some {| a_env := Some (aput e x [PNever]); a_trig := store_triggers x [PNever]; a_gsafe := true |}
+                a_trig := map (fun p => mk_trigger 0 p (CSite (SResult f))) (uprods e a);
+                a_gsafe := use_ok (prods_of_atom e a); a_rsafe := never_nil (uprods e a) |}
+    | SReturn2 a er =>
+        (* the value result only matters when the error result is nil; the fragment decides this per return:
+           a literal nil / a fresh error / an error variable that is known nil or non-nil here *)
+        let eps := prods_of_atom e er in
+        let nonnil := forallb (fun p => match p with PNever => true | _ => false end) eps in
+        let isnil := forallb (fun p => match p with PNil => true | _ => false end) eps in
+        Some {| a_env := None;
+                a_trig := if nonnil then [] else map (fun p => mk_trigger 0 p (CSite (SResult f))) (uprods e a);
+                a_gsafe := use_ok (prods_of_atom e a) && (nonnil || isnil); a_rsafe := never_nil (uprods e a) |}
+    | SCall2 cs x xe g args =>
+        let e' := mark_stale ng e in
+        let res := match xe with Some y => [PGuard g cs y] | None => [PUng g cs] end in
+        (* both targets are assigned: guards that depend on either are gone *)
+        let e1 := match x with Some y => env_map (kill_guard y) e' | None => e' end in
+        let e2 := match xe with Some y => env_map (kill_guard y) e1 | None => e1 end in
+        let e3 := match xe with Some y => aput e2 y [PStale] | None => e2 end in
+        Some {| a_env := Some (match x with Some y => aput e3 y res | None => e3 end);
+                a_trig := arg_triggers e (fun i => SParam g i) 0 args;
+                a_gsafe := forallb (fun a => use_ok (prods_of_atom e a)) args; a_rsafe := true |}
+    | SConv x _ _ => Some {| a_env := Some (aputk e x [PNever]); a_trig := store_triggers x [PNever]; a_gsafe := true; a_rsafe := true |}
     | SCallI _ d x xi k m args =>
         (* calling a method on an interface value dereferences it; arguments and result go through the sites of
            the interface method *)
         let res := [PSite (SIResult k m)] in
         let e' := mark_stale ng e in
-        Some {| a_env := Some (match x with Some y => aput e' y res | None => e' end);
-                a_trig := map (fun p => mk_trigger d p CAlways) (aget e xi) ++
+        Some {| a_env := Some (match x with Some y => aputk e' y res | None => e' end);
+                a_trig := map (fun p => mk_trigger d p CAlways) (norm (aget e xi)) ++
                           arg_triggers e (SIParam k m) 0 args ++
                           match x with Some y => store_triggers y res | None => [] end;
-                a_gsafe := use_ok (aget e xi) && forallb (fun a => use_ok (prods_of_atom e a)) args |}
+                a_gsafe := use_ok (aget e xi) && forallb (fun a => use_ok (prods_of_atom e a)) args; a_rsafe := true |}
     end.
 End Analyze.
 
@@ -344,11 +398,40 @@ Fixpoint ctr_local (ctr : fname -> bool) (sp : fname -> fname -> bool) (f : fnam
   | fd :: rest => forallb (fun gc => negb (ctr (fst gc)) || sp f (fst gc)) (calls_of (f_body fd)) && ctr_local ctr sp (S f) rest
   end.
 
+(* "always safe": when every return statement of an error-returning function of the package returns a value that is
+   never nil, the unchecked uses of its results in that package are not reported (the triggers are deleted) *)
+Definition func_rsafe (ng fuel : nat) (ctr : fname -> bool) (sp : fname -> bool) (f : fname) (fd : func) : bool :=
+  match analyze ng ctr sp f fuel (f_body fd) (entry_env f 0 (f_nparams fd)) with
+  | Some r => a_rsafe r && match a_env r with None => true | Some _ => false end
+  | None => false
+  end.
+Fixpoint rsafe_all (ng fuel : nat) (ctr : fname -> bool) (sp : fname -> fname -> bool) (f : fname) (fds : list func) : list bool :=
+  match fds with
+  | [] => []
+  | fd :: rest => func_rsafe ng fuel ctr (sp f) f fd :: rsafe_all ng fuel ctr sp (S f) rest
+  end.
+Definition exempt (rs : list bool) (sp : fname -> bool) (t : strig) : bool :=
+  match s_prod t with
+  | PGuard g _ _ | PUng g _ => nth g rs false && sp g
+  | _ => false
+  end.
+Fixpoint drop_safe (rs : list bool) (sp : fname -> fname -> bool) (f : fname) (tss : list (list strig)) : list (list strig) :=
+  match tss with
+  | [] => []
+  | ts :: rest => filter (fun t => negb (exempt rs (sp f) t)) ts :: drop_safe rs sp (S f) rest
+  end.
+Fixpoint none_exempt (rs : list bool) (sp : fname -> fname -> bool) (f : fname) (tss : list (list strig)) : bool :=
+  match tss with
+  | [] => true
+  | ts :: rest => forallb (fun t => negb (exempt rs (sp f) t)) ts && none_exempt rs sp (S f) rest
+  end.
+
 Record pres := { r_decl : list strig;            (* declarations of package-level variables *)
                  r_funcs : list (list strig);     (* per function *)
                  r_dups : list (list strig);      (* per caller: duplicated triggers of contracted callees *)
                  r_affil : list (list strig);     (* per function: triggers of the (interface, implementation) pairs its conversions witness *)
                  r_gsafe : bool;                  (* no stale package-level value is used *)
+                 r_nodel : bool;                  (* the always-safe deletion removed nothing *)
                  r_clocal : bool }.               (* contracted functions are only called from their own package *)
 
 (* whole program; pk f is the package of function f *)
@@ -357,7 +440,9 @@ Definition analyze_program (fuel : nat) (ctr : fname -> bool) (pk : fname -> nat
   match analyze_funcs (length (p_ginit p)) fuel ctr sp 0 (p_funcs p) with
   | None => None
   | Some (tss, b) =>
-      Some {| r_decl := decl_triggers 0 (p_ginit p); r_funcs := tss; r_dups := dups_all ctr sp tss 0 (p_funcs p);
+      let rs := rsafe_all (length (p_ginit p)) fuel ctr sp 0 (p_funcs p) in
+      Some {| r_decl := decl_triggers 0 (p_ginit p); r_funcs := drop_safe rs sp 0 tss;
+              r_nodel := none_exempt rs sp 0 tss; r_dups := dups_all ctr sp tss 0 (p_funcs p);
               r_affil := map (fun fd => flat_map (affil p) (convs_of (f_body fd))) (p_funcs p);
               r_gsafe := b; r_clocal := ctr_local ctr sp 0 (p_funcs p) |}
   end.
@@ -389,6 +474,15 @@ Section WF.
         | None => false
         end && forallb atom_ok args && match x with Some y => var_ok y | None => true end
     | SDeref _ x => var_ok x
+    | SReturn2 a er => atom_ok a && atom_ok er
+    | SCall2 _ x xe g args =>
+        match nth_error (p_funcs p) g with
+        | Some fd => Nat.eqb (length args) (f_nparams fd)
+        | None => false
+        end && forallb atom_ok args &&
+        (* value and error go into two distinct locals *)
+        match x with Some (VG _) => false | _ => true end &&
+        match xe with Some (VL _ as y) => match x with Some y' => negb (var_eqb y y') | None => true end | Some (VG _) => false | None => true end
     | SIf c a b => cond_ok c && stmt_ok a && stmt_ok b
     | SWhile c b => cond_ok c && stmt_ok b
     | SReturn a => atom_ok a
